@@ -96,6 +96,7 @@ theorem left_ok {t : Tbl} {c : Cells} {ops : List Nat} (hT : TableOK t c ops) {n
         subst hr
         obtain ⟨hso, hwa, hwb⟩ := wfMix_bin hrest
         have hmp := mixParts_of_shape (c := c) a b (by rw [← hT.mixAgree i hio]; exact hm)
+        have h3 := h3 (by rw [hm]; simp)
         refine .binMix l' i _ a s b hmp (fun _ => h3) ?_
         intro hdb
         have hdb' : c.dropMR i (kindOf b) = true := hdb
@@ -118,6 +119,7 @@ theorem left_ok {t : Tbl} {c : Cells} {ops : List Nat} (hT : TableOK t c ops) {n
         have hshape' : isMixShape t i r' = false := by simpa using hshape
         have hmp : mixParts (policyOf c) i r' = none :=
           mixParts_none (p := policyOf c) (hT.mixAgree i hio) hshape'
+        have h2 := h2 hrest.1
         refine .binReg l' i r' hmp (fun _ => h2) ?_ ?_
         · intro hm
           rcases hrest.1 with h0 | h0
@@ -249,7 +251,7 @@ theorem bridge_step {t : Tbl} {c : Cells} {ops : List Nat} (hT : TableOK t c ops
       · intro x hx _
         have hxo : x ≤ t.lbp o := hx l o _ rfl
         refine .binMix l o _ a s b hmp ho hi hxo (hLge x hxo) ?_
-        exact hB x (Nat.le_trans hxo (hT.wf o ho).2)
+        exact hB x (Nat.le_trans hxo ((hT.wf o ho).2 (by rw [hm]; simp)))
     · -- regular reading
       rename_i hshape
       have hshape' : isMixShape t o r = false := by simpa using hshape
@@ -277,7 +279,7 @@ theorem bridge_step {t : Tbl} {c : Cells} {ops : List Nat} (hT : TableOK t c ops
       · intro x hx _
         have hxo : x ≤ t.lbp o := hx l o r rfl
         exact .binReg l o r hmp ho hi hrest.1 hxo (hLge x hxo)
-          (hR x (Nat.le_trans hxo (hT.wf o ho).1))
+          (hR x (Nat.le_trans hxo ((hT.wf o ho).1 hrest.1)))
 
 theorem bridge {t : Tbl} {c : Cells} {ops : List Nat} (hT : TableOK t c ops) :
     ∀ n, Bridge t c ops n
